@@ -11,6 +11,7 @@ import pandas as pd
 # zone class -> (tz, {kind: real local date}); dates verified against zoneinfo at import of this table by `witness_ok`
 ZONES = {
     "chicago": ("America/Chicago", {("S", 2): "2020-03-08", ("F", 1): "2020-11-01"}),
+    "newyork": ("America/New_York", {("S", 2): "2020-03-08", ("F", 1): "2020-11-01"}),
     "london": ("Europe/London", {("S", 1): "2020-03-29", ("F", 1): "2020-10-25"}),
     "havana": ("America/Havana", {("S", 0): "2020-03-08", ("F", 0): "2020-11-01"}),
     "saopaulo": ("America/Sao_Paulo", {("S", 0): "2018-11-04", ("F", 23): "2018-02-17"}),
@@ -186,6 +187,23 @@ def realise(cin, variant):
         if cin["lvl"] == "fn":
             return _fn_real(cin, variant["tz"], variant["date"])
         return _api(cin, variant["tz"], variant["date"])
+    if cin.get("prior", "none") != "none":
+        # the same local dates in a zone with the same offsets were processed just before, in this process
+        twin = dict(cin, zone=cin["prior"], prior="none")
+        tk = {"havana": {2: 0, 1: 0}, "newyork": {0: 2}}       # map the hour of each kind to the twin zone's hour
+        days = []
+        for d in cin["days"]:
+            if d["k"] == "N":
+                days.append(d)
+            elif cin["prior"] == "newyork":
+                days.append({"k": d["k"], "h": 2 if d["k"] == "S" else 1})
+            else:
+                days.append({"k": d["k"], "h": 0})
+        twin["days"] = days
+        try:
+            _fn(twin) if cin["lvl"] == "fn" else _api(twin)
+        except Exception:
+            pass
     return _fn(cin) if cin["lvl"] == "fn" else _api(cin)
 
 
